@@ -55,13 +55,18 @@ impl Slot {
         SLOT_TABLE.with_borrow_mut(|tab| {
             if s.starts_with("f") {
                 if let Ok(x) = s[1..].parse::<u32>() {
-                    // `f<n>` too large for the encoding (or for the fresh counter after it) is interned like any other name.
+                    // `f<n>` denotes the fresh-kind slot number n if Slot::fresh() already handed that slot out, or if n is
+                    // small enough to leave at least half of the counter range to Slot::fresh(). Larger ones are interned
+                    // like any other name: otherwise one parsed name such as `$f1073741822` would exhaust the counter and
+                    // the next Slot::fresh() would overflow.
                     if x <= (u32::MAX - 5) / 4 {
                         let out = x * 4 + 1;
-                        if tab.fresh_idx <= out {
-                            tab.fresh_idx = out + 4;
+                        if out < tab.fresh_idx || x < u32::MAX / 8 {
+                            if tab.fresh_idx <= out {
+                                tab.fresh_idx = out + 4;
+                            }
+                            return Slot(out); // fresh
                         }
-                        return Slot(out); // fresh
                     }
                 }
             }
